@@ -270,8 +270,9 @@ class StdioClient:
                     # This avoids expensive attribute lookups for common types
 
                     if isinstance(message, str):
-                        # Raw string message (already JSON)
-                        json_str = message
+                        # Raw string message (already JSON); raw line breaks can only be
+                        # insignificant whitespace in JSON text, and would break NDJSON framing
+                        json_str = message.replace("\r", "").replace("\n", "")
                         msg_method = None
                         msg_id = None
                     elif isinstance(message, dict):
